@@ -119,6 +119,10 @@ func cssString(v []int) string {
 		if c == '"' || c == '\\' {
 			b.WriteByte('\\')
 		}
+		if c == '\n' {
+			b.WriteString("\\a ") // (a line feed inside a string is written as an escape)
+			continue
+		}
 		b.WriteRune(rune(c))
 	}
 	b.WriteByte('"')
